@@ -260,6 +260,9 @@ class Prog:
             else:
                 cands = [m for m in cands if fits(vals, m)] or [XT2MEM[xt]]
         r = rng.random()
+        same = XT2MEM[xt]
+        if same in cands and rng.random() < 0.4:
+            cands = [same]                     # no conversion: the byte-swap-only path (in place or not)
         if allow_flex and r < 0.35:
             prim = rng.choice(cands)
             if rng.random() < 0.15:
@@ -376,7 +379,7 @@ class Prog:
         if extra:
             kw.update(extra)
         if nb:
-            kw.update(nb)
+            kw.update({k: x for k, x in nb.items() if not k.startswith("_")})
             kw.pop("coll")
         self.feat.add((kind, form, v.ndims, int(v.isrec), mt if mt in ("flex", "text") else ("conv" if mt != XT2MEM[v.xtype] else "same"),
                        td.kind if td else "-", int(coll), self.np, int(imap is not None)))
@@ -573,3 +576,180 @@ def check_final_file(filebytes, fm, res, what="final file"):
             out.append(Violation("data|file", "%s: variable %d element %s is %r in the file, model %r (%d elements differ)" % (
                 what, i, w, arr[tuple(w)], md[tuple(w)], int(bad.sum())), res))
     return out
+
+
+# ====================================================================== nonblocking requests
+class NBMixin:
+    """nonblocking requests on top of Prog: pending-request model (reqmodel)"""
+
+    def nb_init(self):
+        self.pending = {r: [] for r in range(self.np)}   # rank -> list of request dicts (posting order)
+        self.pend_put = {}      # vid -> set of element index tuples with a pending put (any rank)
+        self.pend_get = {}      # vid -> set of element tuples with a pending get
+        self.abuf = {r: None for r in range(self.np)}    # attached buffer size per rank (None = not attached)
+        self.abuf_used = {r: 0 for r in range(self.np)}
+        self.abuf_ent = {r: [] for r in range(self.np)}  # allocation entries in posting order: [size, request]
+        self.nb_posted = 0
+
+    @staticmethod
+    def _keys(idx, ndims):
+        if ndims == 0:
+            return {()}
+        return set(zip(*[a.tolist() for a in idx])) if len(idx) and idx[0].size else set()
+
+    def region_free(self, vid, keys, for_put):
+        if keys & self.pend_put.get(vid, set()):
+            return False
+        if for_put and (keys & self.pend_get.get(vid, set())):
+            return False
+        return True
+
+    def post(self, kind, rank, vid, st, ct, sd, form=None, fam=None):
+        """iput / iget / bput of a valid selection by `rank`; returns request dict or None if region busy"""
+        v = self.fm.vars[vid]
+        idx = select(st, ct, sd) if v.ndims else ()
+        keys = self._keys(idx, v.ndims)
+        isput = kind in ("iput", "bput")
+        if not self.region_free(vid, keys, isput):
+            return None
+        if kind == "iget" and not getattr(self, "allow_get_overlap", False):
+            # overlapping pending gets of one rank are exercised only in dedicated cases (known finding:
+            # only the first of overlapping reads completed by one wait receives the data)
+            if any(q["kind"] == "iget" and q["vid"] == vid and (q["keys"] & keys) for q in self.pending[rank]):
+                return None
+        nelem = int(np.prod(ct)) if len(ct) else 1
+        if kind == "bput":
+            need = nelem * cs.XSZ[v.xtype]
+            if self.abuf[rank] is None or self.abuf[rank] - self.abuf_tail(rank) < need:
+                return None
+        self.bslot = (self.bslot + 1) % 4000
+        self.rslot = (self.rslot + 1) % 4000
+        nb = {"buf": self.bslot, "req": self.rslot, "_defer": True}
+        extra = {}
+        if kind == "bput" and self.rng.random() < 0.7:
+            extra["scribble"] = 1
+        nbk = dict(nb)
+        nbk.pop("_defer")
+        nbk.update(extra)
+        nbk["_defer"] = True
+        line, payload = self.one_access(kind, rank, vid, st, ct, sd, False, form=form, fam=fam, nb=nbk)
+        rq = {"kind": kind, "rank": rank, "vid": vid, "keys": keys, "rslot": self.rslot, "bslot": self.bslot, "line": line,
+              "scribbled": bool(extra.get("scribble")), "nbytes_x": nelem * cs.XSZ[v.xtype], "isrec": v.isrec,
+              "maxrec": (int(idx[0].max()) + 1 if v.isrec and v.ndims and idx[0].size else 0)}
+        if isput:
+            rq["idx"], rq["vals"] = payload
+            self.pend_put.setdefault(vid, set()).update(keys)
+            if kind == "bput":
+                self.abuf_used[rank] += rq["nbytes_x"]
+                self.abuf_ent[rank].append([rq["nbytes_x"], rq])
+        else:
+            rq["expect"] = payload
+            self.pend_get.setdefault(vid, set()).update(keys)
+        self.pending[rank].append(rq)
+        self.nb_posted += 1
+        self.feat.add(("post", kind, v.isrec, self.np))
+        return rq
+
+    def _retire(self, rq, completed):
+        vid = rq["vid"]
+        if rq["kind"] in ("iput", "bput"):
+            self.pend_put[vid] -= rq["keys"]
+            if completed:
+                self.fm.put(vid, rq["idx"], rq["vals"])
+            if rq["kind"] == "bput":
+                self.abuf_used[rq["rank"]] -= rq["nbytes_x"]
+                ent = self.abuf_ent[rq["rank"]]
+                for e_ in ent:
+                    if e_[1] is rq:
+                        e_[1] = None
+                while ent and ent[-1][1] is None:
+                    ent.pop()
+        else:
+            # overlapping pending gets are allowed: rebuild the set from the remaining ones
+            self.pend_get[vid] = set()
+            for r in self.pending.values():
+                for q in r:
+                    if q is not rq and q["kind"] == "iget" and q["vid"] == vid:
+                        self.pend_get[vid] |= q["keys"]
+
+    def abuf_tail(self, rank):
+        """usage as the library's bump allocator counts it: everything up to the last still-pending entry
+        (space of completed requests in the middle is not reclaimed -- known finding C13)"""
+        return sum(e_[0] for e_ in self.abuf_ent[rank])
+
+    def complete(self, op, coll, choice):
+        """op: 'wait' or 'cancel'.  choice: {rank: spec} where spec is 'all' | 'allput' | 'allget' | 'none' |
+        list of request dicts (any order) possibly with None entries (NC_REQ_NULL).
+        Ranks not in choice do not call (independent mode only)."""
+        after = []
+        for rank in sorted(choice):
+            spec = choice[rank]
+            pend = self.pending[rank]
+            if spec == "all":
+                done = list(pend)
+            elif spec == "allput":
+                done = [q for q in pend if q["kind"] != "iget"]
+            elif spec == "allget":
+                done = [q for q in pend if q["kind"] == "iget"]
+            elif spec == "none":
+                done = []
+            else:
+                done = [q for q in spec if q is not None]
+            if isinstance(spec, str):
+                kv = {}
+                arg = spec
+            else:
+                arg = ",".join("null" if q is None else str(q["rslot"]) for q in spec) or "none"
+                kv = {"ids": ",".join("-1" for _ in spec), "st": ",".join("0" for _ in spec)} if spec else {}
+            wex = Expect(0, kv=kv, what="%s %s coll=%d" % (op, arg if len(arg) < 60 else arg[:60], coll))
+            self.emit(rank, op, wex, f=self.f, coll=int(coll), reqs=arg)
+            for q in done:
+                pend.remove(q)
+            after.append((rank, done, wex))
+            self.feat.add((op, "spec:" + (spec if isinstance(spec, str) else ("subset" if len(done) < len(pend) + len(done) else "every")),
+                           int(coll), int(any(q is None for q in spec)) if not isinstance(spec, str) else 0, self.np))
+        # model update after every rank's line has been emitted (collective: same call)
+        for rank, done, wex in after:
+            for q in done:
+                self._retire(q, op == "wait")
+        for rank, done, wex in after:
+            gets = [q for q in done if q["kind"] == "iget"]
+            for a_ in gets:
+                for b_ in gets:
+                    if a_ is not b_ and a_["vid"] == b_["vid"] and (a_["keys"] & b_["keys"]):
+                        a_["expect"].tag = "iget-overlap-same-wait"
+                        # the unfilled internal buffer is then converted: statuses may report NC_ERANGE
+                        if op == "wait":
+                            wex.err = None
+                            wex.kv.pop("st", None)
+        for rank, done, wex in after:
+            for q in done:
+                if q["kind"] == "iget":
+                    if op == "wait":
+                        q["expect"].err = None
+                        self.emit(rank, "dumpbuf", q["expect"], b=q["bslot"])
+                    else:
+                        self.emit(rank, "dumpbuf", None, b=q["bslot"])
+                else:
+                    self.emit(rank, "chkbuf", Expect(None, kv={"bufsame": -1 if q["scribbled"] else 1, "guard": 1}, what="write buffer after " + op), b=q["bslot"])
+            self.emit(rank, "inq", Expect(0, kv={"val": len(self.pending[rank])}, what="inq_nreqs after " + op), f=self.f, what="nreqs")
+            if self.abuf[rank] is not None and getattr(self, "check_abuf", False):
+                ex = Expect(0, kv={"val": self.abuf_used[rank], "val2": self.abuf[rank]}, what="buffer usage after " + op)
+                ex.alt_kv = {"val": (self.abuf_tail(rank), "abuf|usage|tail-only-reclaim")}
+                self.emit(rank, "inq", ex, f=self.f, what="buffer")
+
+    def attach(self, rank, size):
+        self.emit(rank, "attach", Expect(0, what="attach"), f=self.f, size=size)
+        self.abuf[rank] = size
+        self.abuf_used[rank] = 0
+        self.abuf_ent[rank] = []
+
+    def detach(self, rank):
+        self.emit(rank, "detach", Expect(0, what="detach"), f=self.f)
+        self.abuf[rank] = None
+
+
+class NBProg(NBMixin, Prog):
+    def __init__(self, *a, **kw):
+        Prog.__init__(self, *a, **kw)
+        self.nb_init()
